@@ -708,6 +708,9 @@ class FnContract:
         # scenario on the real code that replays a counter-model of that obligation (used where the
         # model itself cannot be injected: whole sessions over sockets and threads)
         self.native_replay = dict(d.get('native_replay', {}))
+        # variants: {name: {attribute: value}}: the same function verified again under other
+        # parameter shapes / loop contracts (a scenario); obligations get the suffix [name]
+        self.variants = dict(d.get('variants', {}))
 
     def shape_of(self, pname, registry):
         if pname in self.shapes:
